@@ -2250,7 +2250,20 @@ class PrepareAst:
                         if first_target is None:
                             first_target = target
 
-            result_statements.append(self.apply(inp.body))
+            try:
+                result_statements.append(self.apply(inp.body))
+            except BaseException as err:
+                # The body is rejected. Leave the context managers that are
+                # evaluated at compile time (std.prefix, StdExceptionHandler, ...),
+                # their __enter__ changed global state that would otherwise
+                # leak into the following compilations.
+                for context, fn in exit_list[::-1]:
+                    if _is_intrinsic(fn):
+                        try:
+                            fn(context, type(err), err, None)
+                        except BaseException:
+                            pass
+                raise
 
             for context, fn in exit_list[::-1]:
                 returns_always = 0
